@@ -269,6 +269,7 @@ func init() {
 			eval := func(c c18Case, nontrivial bool) {
 				c.SeqS, c.QryS = string(c.Seq), string(c.Query)
 				r.Evals.Add(1)
+				r.Journal(c)
 				r.Transitions.Add(1)
 				ok, sig, detail := c18Eval(c)
 				if nontrivial {
